@@ -210,11 +210,18 @@ func outHex(b []byte) string {
 	return hex.EncodeToString(b)
 }
 
+// errInfo records the error value for the end-of-sequence re-read and describes it.
+func (st *state) errInfo(err error) *plan.ErrInfo {
+	if err != nil {
+		st.lastErr = err
+	}
+	return errInfo(err)
+}
+
 func errInfo(err error) *plan.ErrInfo {
 	if err == nil {
 		return nil
 	}
-	lastErr = err
 	msg := err.Error()
 	ei := &plan.ErrInfo{
 		WordLen:  errors.Is(err, bip39.ErrWordLen),
@@ -265,13 +272,14 @@ type keptErr struct {
 	e error
 }
 
-var lastErr error // the error value of the call that exec just made (nil when none)
 
 type state struct {
 	arena map[int][]byte
 	bufs  map[int][]byte
 	keep  []kept
 	errs  []keptErr
+	// the error value of the call that exec is making (nil when none); per state, hence per goroutine
+	lastErr error
 	// a scripted source installed by "srcset" that stays in place over the following calls
 	persist     *scripted
 	persistPrev io.Reader
@@ -314,14 +322,12 @@ func (st *state) exec(op *plan.Op, shared *scripted) (res plan.Res) {
 	}
 	res.I = op.I
 	res.Env = envTag
-	if !concMode {
-		lastErr = nil
-		defer func() {
-			if lastErr != nil && len(st.errs) < 4096 && op.Fn != "keepdump" {
-				st.errs = append(st.errs, keptErr{i: op.I, e: lastErr})
-			}
-		}()
-	}
+	st.lastErr = nil
+	defer func() {
+		if st.lastErr != nil && len(st.errs) < 4096 && op.Fn != "keepdump" {
+			st.errs = append(st.errs, keptErr{i: op.I, e: st.lastErr})
+		}
+	}()
 	// decode arguments before the clock starts
 	var ent, full []byte
 	var s, p string
@@ -406,13 +412,13 @@ func (st *state) exec(op *plan.Op, shared *scripted) (res plan.Res) {
 		switch op.Fn {
 		case "enc":
 			out, err := bip39.NewMnemonicByEntropy(ent, bip39.Language(op.L))
-			res.Out, res.OutOK, res.Err = outHex([]byte(out)), true, errInfo(err)
+			res.Out, res.OutOK, res.Err = outHex([]byte(out)), true, st.errInfo(err)
 			if op.Keep {
 				st.keep = append(st.keep, kept{i: op.I, s: out})
 			}
 		case "new":
 			out, err := bip39.NewMnemonic(int(op.N), bip39.Language(op.L))
-			res.Out, res.OutOK, res.Err = outHex([]byte(out)), true, errInfo(err)
+			res.Out, res.OutOK, res.Err = outHex([]byte(out)), true, st.errInfo(err)
 			if op.Keep {
 				st.keep = append(st.keep, kept{i: op.I, s: out})
 			}
@@ -424,8 +430,8 @@ func (st *state) exec(op *plan.Op, shared *scripted) (res plan.Res) {
 			} else {
 				out, err = bip39.NewMnemonic(int(op.N), bip39.Language(op.L))
 			}
-			res.Out, res.Err = outHex([]byte(out)), errInfo(err)
-			res.Err2 = errInfo(bip39.CheckMnemonic(out, bip39.Language(op.L)))
+			res.Out, res.Err = outHex([]byte(out)), st.errInfo(err)
+			res.Err2 = st.errInfo(bip39.CheckMnemonic(out, bip39.Language(op.L)))
 			b := bip39.IsMnemonicValid(out, bip39.Language(op.L))
 			res.B, res.OutOK = &b, true
 		case "encslab":
@@ -436,7 +442,7 @@ func (st *state) exec(op *plan.Op, shared *scripted) (res plan.Res) {
 			for off := 0; size > 0 && off+size <= len(ent); off += size {
 				o, err := bip39.NewMnemonicByEntropy(ent[off:off+size], bip39.Language(op.L))
 				if err != nil {
-					res.Err = errInfo(err)
+					res.Err = st.errInfo(err)
 				}
 				outs = append(outs, o)
 			}
@@ -446,19 +452,19 @@ func (st *state) exec(op *plan.Op, shared *scripted) (res plan.Res) {
 			// then validate the held mnemonic and report it as it reads now
 			held, err := bip39.NewMnemonicByEntropy(ent, bip39.Language(op.L))
 			second, _ := bip39.NewMnemonicByEntropy([]byte(p), bip39.Language(op.L))
-			res.Out, res.Err = outHex([]byte(held)), errInfo(err)
+			res.Out, res.Err = outHex([]byte(held)), st.errInfo(err)
 			res.Out2 = outHex([]byte(second))
-			res.Err2 = errInfo(bip39.CheckMnemonic(held, bip39.Language(op.L)))
+			res.Err2 = st.errInfo(bip39.CheckMnemonic(held, bip39.Language(op.L)))
 			b := bip39.IsMnemonicValid(held, bip39.Language(op.L))
 			res.B, res.OutOK = &b, true
 		case "chk":
-			res.Err = errInfo(bip39.CheckMnemonic(s, bip39.Language(op.L)))
+			res.Err = st.errInfo(bip39.CheckMnemonic(s, bip39.Language(op.L)))
 			res.OutOK = true
 		case "val":
 			b := bip39.IsMnemonicValid(s, bip39.Language(op.L))
 			res.B, res.OutOK = &b, true
 		case "chkval":
-			res.Err = errInfo(bip39.CheckMnemonic(s, bip39.Language(op.L)))
+			res.Err = st.errInfo(bip39.CheckMnemonic(s, bip39.Language(op.L)))
 			b := bip39.IsMnemonicValid(s, bip39.Language(op.L))
 			res.B, res.OutOK = &b, true
 		case "seed":
